@@ -7,12 +7,13 @@ paths.activate()
 from sourcer import parser, translator, grammar as grammar_mod  # noqa: E402
 from sourcer import expressions as ex  # noqa: E402
 from . import frag  # noqa: E402
+from . import locate  # noqa: E402
 
 
 def rules_of(description):
     """-> list of real expression objects (Rule / Class / ...) for the description's statements"""
-    parsed = grammar_mod._parse_grammar(description)
-    return parser.transform(parsed.body, translator._create_parsing_expression)
+    parsed = locate.parse_grammar()(description)
+    return parser.transform(parsed.body, locate.create_parsing_expression())
 
 
 def expr_of(text):
